@@ -20,7 +20,10 @@ vars == <<ty, env, depth, last>>
 LeavesOf(fam) ==
   CASE fam = "prim"   -> {TString, TNumber, TBoolean, TNull, TUndef, Prim("void"), TAny, Prim("unknown"), TNever,
                           LS("a"), LS(""), LN("1"), LN("0"), LB(TRUE), LB(FALSE)}
-    [] fam = "object" -> {TString, TNumber, TNull, LS("x"), LN("1"), Uni(<<TString, TNull>>)}
+    [] fam = "object" -> {TString, TNumber, TNull, LS("x"), LN("1"), Uni(<<TString, TNull>>),
+                          \* a declared property whose type keeps more than the index signature's value type does
+                          Obj(<<Prop("o", Obj(<<Prop("x", TNumber, FALSE), Prop("y", TNumber, FALSE)>>, <<>>), FALSE)>>,
+                              <<Ix(TString, Obj(<<Prop("x", TNumber, FALSE)>>, <<>>))>>)}
     [] fam = "tuple"  -> {TString, TNumber, LS("x"), Uni(<<TString, TUndef>>)}
     [] fam = "union"  -> {TString, LS("a"), LS("b"), LN("1"), LB(TRUE), TNull,
                           Obj(<<Prop("k", LS("x"), FALSE), Prop("a", TString, FALSE)>>, <<>>),
@@ -41,6 +44,15 @@ LeavesOf(fam) ==
                                  Obj(<<Prop("t", TaT("Uint8Array"), FALSE), Prop("n", TNumber, TRUE)>>, <<>>)>>),
                            Uni(<<MapT(TString, TNumber), MapT(TString, TString)>>)}
     [] fam = "format" -> {SFmt(<<"f1">>), SFmt(<<"f1", "f2">>), NFmt(<<"n1">>), NFmt(<<"n1", "n2">>), TString}
+    \* discriminated unions whose variants are named, are intersections of named types that both declare the tag, or carry
+    \* an index signature (declarations: PresetEnv)
+    [] fam = "disc"   -> {Uni(<<Inter(<<Ref("Base"), Ref("Cp")>>), Obj(<<Prop("kind", LS("sq"), FALSE), Prop("s", TNumber, FALSE)>>, <<>>)>>),
+                          Uni(<<Inter(<<Ref("Cp"), Ref("Base")>>), Ref("Sq")>>),
+                          Uni(<<Ref("Lb"), Obj(<<Prop("kind", LS("count"), FALSE), Prop("n", TNumber, FALSE)>>, <<>>)>>),
+                          Uni(<<Obj(<<Prop("kind", LS("labels"), FALSE)>>, <<Ix(TString, TString)>>), Ref("Sq")>>),
+                          Uni(<<Ref("Cp"), Ref("Sq")>>),
+                          Uni(<<Obj(<<Prop("kind", LS("a-b"), FALSE), Prop("x", TNumber, FALSE)>>, <<>>),
+                                Obj(<<Prop("kind", LS("a_b"), FALSE), Prop("y", TString, FALSE)>>, <<>>)>>)}
     [] fam = "describe" -> {Obj(<<Prop("my-key", TString, FALSE), Prop("b", TNumber, TRUE)>>, <<>>),
                             Obj(<<Prop("a b", TString, TRUE)>>, <<>>),
                             Obj(<<Prop("0", TString, FALSE), Prop("$x", TNumber, FALSE)>>, <<>>),
@@ -60,6 +72,7 @@ PoolOf(fam) ==
     [] fam = "tpl"    -> {TString, LS("x1")}
     [] fam = "nonjson" -> {TString, TNumber, Prim("Date")}
     [] fam = "format" -> {TString, TNumber}
+    [] fam = "disc"   -> {TNull, Obj(<<Prop("kind", LS("tri"), FALSE), Prop("id", TString, TRUE)>>, <<>>), Ref("Sq")}
     [] fam = "describe" -> {TString, Obj(<<Prop("my-key", TNumber, FALSE)>>, <<>>)}
     [] OTHER -> {TString}
 
@@ -71,6 +84,7 @@ Unary ==
     [] Family = "tpl"    -> {"arr", "objReq", "index", "indexKey"}
     [] Family = "nonjson" -> {"arr", "objReq", "objOpt", "set", "alias"}
     [] Family = "format" -> {"arr", "objReq", "index"}
+    [] Family = "disc"   -> {"arr", "objReq", "objOpt"}
     [] Family = "describe" -> {"arr", "objReq", "objOpt", "alias", "rec", "shared", "recTuple", "index"}
     [] OTHER -> {}
 
@@ -82,8 +96,17 @@ Binary ==
     [] Family = "tpl"    -> {"union"}
     [] Family = "nonjson" -> {"map", "mapK", "union", "obj2"}
     [] Family = "format" -> {"union", "obj2"}
+    [] Family = "disc"   -> {"union"}
     [] Family = "describe" -> {"union", "obj2", "inter"}
     [] OTHER -> {}
+
+PresetEnv ==
+  IF Family = "disc" THEN <<
+    [n |-> "Base", kind |-> "type", ty |-> Obj(<<Prop("kind", Uni(<<LS("circle"), LS("ellipse")>>), FALSE), Prop("id", TString, FALSE)>>, <<>>)],
+    [n |-> "Cp",   kind |-> "type", ty |-> Obj(<<Prop("kind", LS("circle"), FALSE), Prop("r", TNumber, FALSE)>>, <<>>)],
+    [n |-> "Sq",   kind |-> "type", ty |-> Obj(<<Prop("kind", LS("sq"), FALSE), Prop("s", TNumber, FALSE)>>, <<>>)],
+    [n |-> "Lb",   kind |-> "type", ty |-> Obj(<<Prop("kind", LS("labels"), FALSE)>>, <<Ix(TString, TString)>>)] >>
+  ELSE <<>>
 
 FreshName == IF env = <<>> THEN "A" ELSE IF Len(env) = 1 THEN "B" ELSE "C"
 
@@ -110,7 +133,7 @@ ApplyBinary(a, t, x) ==
     [] a = "mapK"       -> MapT(t, x)
 
 Init == /\ ty \in LeavesOf(Family)
-        /\ env = <<>>
+        /\ env = PresetEnv
         /\ depth = 0
         /\ last = "leaf"
 
